@@ -258,6 +258,21 @@ impl DirEntry {
             }
             stream_len = 0;
         }
+        // A FAT cannot address more than MAX_REGULAR_SECTOR sectors, so no
+        // stream (and no mini stream, whose length the root entry holds) can
+        // be longer than that many sectors.  A larger length is garbage, and
+        // would overflow the position arithmetic of a stream handle.
+        if obj_type == ObjType::Stream || obj_type == ObjType::Root {
+            let max_stream_len = consts::MAX_REGULAR_SECTOR as u64
+                * version.sector_len() as u64;
+            if stream_len > max_stream_len {
+                malformed!(
+                    "stream length {} is larger than the maximum of {}",
+                    stream_len,
+                    max_stream_len
+                );
+            }
+        }
 
         Ok(DirEntry {
             name,
